@@ -297,6 +297,15 @@ def _dispatch(chk, repo, mod, W):
                 F2 = Facts(lens={"self": 0}, truths={"'zero' in kwargs": True})
                 w2 = walk(docstring_free(fn.body), F2, "ParallelFilter.__call__")
                 l2 = last_of(w2)
+
+                def rz(w_, txt):
+                    # zero = kwargs.get('zero', 0.) ; return Stream((zero for ..))  reads like the in-line form
+                    for st_ in w_.ran:
+                        if isinstance(st_, ast.Assign) and len(st_.targets) == 1 and isinstance(st_.targets[0], ast.Name):
+                            nm_ = st_.targets[0].id
+                            txt = txt.replace("((%s for _ in" % nm_, "((%s for _ in" % unparse(st_.value))
+                    return txt
+                last, l2 = rz(w, last), rz(w2, l2)
                 ok = w.end == "return" and "callables" not in allt and "thub(" not in allt and (
                     (last == "return Stream((0.0 for _ in args[0]))" and l2 == "return Stream((kwargs['zero'] for _ in args[0]))")
                     or last == l2 == "return Stream((kwargs.get('zero', 0.0) for _ in args[0]))")
@@ -925,6 +934,48 @@ def _properties(repo, mname, cname):
 _BINOPS = {ast.Mult: "mul", ast.Add: "add"}
 
 
+def _fold_enumerate(mod, fn, acc):
+    """acc = <anything> ; for i, x in enumerate(S): [t = E(x) ;] acc = t if i == 0 else acc OP t    ->   reduce(OP, (E(x) for x in S))
+    (the first item starts the fold, as reduce without an initial value does)"""
+    body = docstring_free(fn.body)
+    loops = [st for st in body if isinstance(st, ast.For) and isinstance(st.iter, ast.Call) and unparse(st.iter.func) == "enumerate"
+             and len(st.iter.args) == 1 and isinstance(st.target, ast.Tuple) and len(st.target.elts) == 2
+             and all(isinstance(e_, ast.Name) for e_ in st.target.elts)]
+    if len(loops) != 1:
+        return None
+    lp = loops[0]
+    i_, x_ = [e_.id for e_ in lp.target.elts]
+    stmts = list(lp.body)
+    if not stmts or not isinstance(stmts[-1], ast.Assign) or unparse(stmts[-1].targets[0]) != acc:
+        return None
+    upd = stmts[-1].value
+    term = None
+    if len(stmts) == 2 and isinstance(stmts[0], ast.Assign) and isinstance(stmts[0].targets[0], ast.Name):
+        tname, term = stmts[0].targets[0].id, stmts[0].value
+    elif len(stmts) == 1:
+        tname = None
+    else:
+        return None
+    if not (isinstance(upd, ast.IfExp) and unparse(upd.test) in ("%s == 0" % i_, "0 == %s" % i_, "not %s" % i_)):
+        return None
+    first_v, rest_v = upd.body, upd.orelse
+    if not (isinstance(rest_v, ast.BinOp) and type(rest_v.op) in _BINOPS and unparse(rest_v.left) == acc):
+        return None
+    t_txt = unparse(first_v)
+    if unparse(rest_v.right) != t_txt:
+        return None
+    if tname is not None:
+        if t_txt != tname:
+            return None
+        elt = unparse(term)
+    else:
+        elt = t_txt
+    if any(isinstance(n, ast.Name) and n.id == i_ for n in ast.walk(ast.parse(elt, mode="eval"))):
+        return None
+    return ast.parse("reduce(operator.%s, (%s for %s in %s))" % (_BINOPS[type(rest_v.op)], elt, x_, unparse(lp.iter.args[0])),
+                     mode="eval").body
+
+
 def _fold_loop(mod, fn, acc):
     """Recognise the spelled-out left fold over a lazy source and hand it back as the reduce(..) call it stands for.
     Accepted: acc = next(SRC) [SRC an iterator local]; for x in SRC: acc = acc OP x | acc OP= x | acc = f(acc, x);
@@ -1057,7 +1108,7 @@ def _reduce_shape(mod, fn):
         outer, v = v.attr, v.value
     if isinstance(v, ast.Name):
         # explicit fold:  it = <source> ; acc = next(it) ; for x in it: acc = acc OP x ; return acc
-        loop_form = _fold_loop(mod, fn, v.id) or _fold_value(fn, v.id)
+        loop_form = _fold_loop(mod, fn, v.id) or _fold_enumerate(mod, fn, v.id) or _fold_value(fn, v.id)
         if loop_form is not None:
             v = loop_form
     if not (isinstance(v, ast.Call) and canon_call(mod, v) == "functools.reduce" and len(v.args) == 2):
